@@ -495,14 +495,11 @@ func c08(c *core.Ctx) {
 			// fields of the stream written by methods of the type outside the send family: lifecycle state
 			lifecycle := map[string]bool{}
 			for _, f := range p.LibFuncs("inprocgrpc") {
-				if core.RecvName(f) != tn || f.Name() == "SendMsg" {
-					continue
-				}
 				root := f
 				for root.Parent() != nil {
 					root = root.Parent()
 				}
-				if root.Name() == "SendMsg" {
+				if core.RecvName(root) != tn || root.Name() == "SendMsg" {
 					continue
 				}
 				core.Instrs(f, func(in ssa.Instruction) {
